@@ -19,7 +19,7 @@ def main():
     if errors:
         run.violation("table translator failed closed: " + "; ".join(errors), dict(kind="translator", errors=errors), False)
         return run.finish()
-    ok, log = run.build(["Proofs/C01/Leaves.vo", "Model/IsdSpecCases.vo"], clean=(run.tier == "thorough"))
+    ok, log = run.build(["Proofs/C01/Main.vo", "Model/IsdSpecCases.vo"], clean=(run.tier == "thorough"))
     proofs_ok = ok and run.theorems()
     if not ok: run.proof_log = log[-2500:]
     run.witnesses()
